@@ -66,8 +66,8 @@ PROPS = {
     # decided by the mapper unit, which therefore runs with these two checks as well (C11 uses step's repeat request, tagged C09; C12 uses
     # release_all's "nothing is held afterwards", tagged C06 C12; C11's "waits at most delay_ms" needs the repeat values of a loaded layout to be
     # non-negative, which the converter's check_mapping_is_usable guarantees under a C11 label)
-    'C11': dict(units=['loop'], dep_units=['mapper', 'converter'], level='proof', trusted_base=TB_LOOP, assumptions=AS_LOOP, witness='loop', rests_on=['C09']),
-    'C12': dict(units=['loop'], dep_units=['mapper'], level='proof', trusted_base=TB_LOOP, assumptions=AS_LOOP, witness='loop'),
+    'C11': dict(units=['loop'], dep_units=['mapper', 'converter'], level='proof', trusted_base=TB_LOOP, assumptions=AS_LOOP, witness='loop', rests_on=['C09', 'C10']),   # which keys of the chord are "not already held" is read from the mapper's bookkeeping, which equals the device only if every step output was written (C10)
+    'C12': dict(units=['loop'], dep_units=['mapper'], level='proof', trusted_base=TB_LOOP, assumptions=AS_LOOP, witness='loop', rests_on=['C11']),   # "all keys held are released" is about the device: the release batch comes from the mapper's bookkeeping, which equals the device only because timer chords are transient (C11)
     'C20': dict(units=['loop'], level='proof', trusted_base=TB_LOOP, assumptions=AS_LOOP, witness='loop', extras=['real_driver_pipes_c20']),
     'C14': dict(units=['converter', 'mapper', 'glue', 'frontend'], level='proof', trusted_base=TB_MAPPER + TB_CONV[4:], assumptions=AS_CONV + AS_MAPPER, witness='loader', extras=['loader_fuzz_bounded', 'hek_bounded']),
     'C13': dict(units=['converter'], level='proof', trusted_base=TB_CONV + [
